@@ -46,7 +46,9 @@ type dynSpecT struct {
 	C int64    `protobuf:"3"`
 }
 
-func (d dynSpecT) DeepCopy() dynSpecT { return dynSpecT{A: d.A, B: append([]string(nil), d.B...), C: d.C} }
+func (d dynSpecT) DeepCopy() dynSpecT {
+	return dynSpecT{A: d.A, B: append([]string(nil), d.B...), C: d.C}
+}
 
 type dynExt struct{}
 
@@ -260,8 +262,12 @@ func codecs() []codec {
 		{"zstd(min=len)", func(n int) store.Marshaler { return compression.NewMarshaler(pm, z, n) }},
 		{"zstd(min=len+1)", func(n int) store.Marshaler { return compression.NewMarshaler(pm, z, n+1) }},
 		{"aes", func(int) store.Marshaler { return encryption.NewMarshaler(pm, cipherOf(key32)) }},
-		{"zstd(aes)", func(int) store.Marshaler { return compression.NewMarshaler(encryption.NewMarshaler(pm, cipherOf(key32)), z, 0) }},
-		{"aes(zstd)", func(int) store.Marshaler { return encryption.NewMarshaler(compression.NewMarshaler(pm, z, 0), cipherOf(key32)) }},
+		{"zstd(aes)", func(int) store.Marshaler {
+			return compression.NewMarshaler(encryption.NewMarshaler(pm, cipherOf(key32)), z, 0)
+		}},
+		{"aes(zstd)", func(int) store.Marshaler {
+			return encryption.NewMarshaler(compression.NewMarshaler(pm, z, 0), cipherOf(key32))
+		}},
 		{"aes(zstd(min=len+1))", func(n int) store.Marshaler {
 			return encryption.NewMarshaler(compression.NewMarshaler(pm, z, n+1), cipherOf(key32))
 		}},
